@@ -208,7 +208,7 @@ class History:
         name = self.paths[li] if not self.searchdir else os.path.basename(self.paths[li])
         d.database_filename = name.encode()
         d.library_name = db["library_name"] if op.get("libname", True) else None
-        d.library_hash_name = db["library_hash_name"]
+        d.library_hash_name = op["hash"].encode() if op.get("hash") else db["library_hash_name"]
         d.module_name = db["module_name"]
         if op.get("range", True):
             d.first_index = 1
@@ -239,6 +239,9 @@ class History:
             d.num_fptrs = n
             self.keep.append(arr)
         self.defs[li] = d
+        # the key the module is filed under; loading the file later overwrites the definition's own copy with the file's
+        self.reg_hash = getattr(self, "reg_hash", {})
+        self.reg_hash[li] = d.library_hash_name if (d.num_unique_names > 0 and d.library_name is not None) else None
         self.call("interrogate_request_module", ctypes.byref(d))
         self.pending.append(li)
 
@@ -555,7 +558,7 @@ class History:
         for li, d in sorted(self.defs.items()):
             if d.num_unique_names <= 0 and not op.get("even_empty"):
                 continue
-            hashname = self.dbs[li]["library_hash_name"]
+            hashname = self.reg_hash.get(li) or self.dbs[li]["library_hash_name"]
             table = [(d.unique_names[i].name, d.unique_names[i].index_offset) for i in range(d.num_unique_names)]
             present = dict(table)
             probes = []
@@ -568,14 +571,8 @@ class History:
             for nm in probes:
                 self.stats["uniq_lookups"] += 1
                 got = self.call("interrogate_get_wrapper_by_unique_name", hashname + nm)
-                # another module may own the same hash name: the last registered one answers
-                owner = self._hash_owner(hashname)
-                if owner is None:
-                    want = 0
-                else:
-                    od = self.defs[owner]
-                    otab = {od.unique_names[i].name: od.unique_names[i].index_offset for i in range(od.num_unique_names)}
-                    want = od.first_index + otab[nm] if nm in otab else 0
+                # other modules may go by the same hash name: every one of them is searched, in registration order
+                want = self._uniq_want(hashname, nm)
                 if got != want:
                     self.v("C20", "unique-name", {"op": "interrogate_get_wrapper_by_unique_name", "kind": "value"},
                            "get_wrapper_by_unique_name(%r + %r) = %d, expected %d (table of %d names)" % (hashname, nm[:30], got, want, len(table)))
@@ -583,24 +580,21 @@ class History:
         for s in (b"", b"a", b"ab", b"abc", b"abcd", b"abcde", b"????x", b"h00", b"\xff", b"x" * 10000):
             self.stats["uniq_lookups"] += 1
             got = self.call("interrogate_get_wrapper_by_unique_name", s)
-            want = 0
-            owner = self._hash_owner(s[:4]) if len(s) >= 4 else None
-            if owner is not None:
-                od = self.defs[owner]
-                otab = {od.unique_names[i].name: od.unique_names[i].index_offset for i in range(od.num_unique_names)}
-                if s[4:] in otab:
-                    want = od.first_index + otab[s[4:]]
+            want = self._uniq_want(s[:4], s[4:]) if len(s) >= 4 else 0
             if got != want:
                 self.v("C20", "unique-name", {"op": "interrogate_get_wrapper_by_unique_name", "kind": "short-or-unknown"}, "get_wrapper_by_unique_name(%r) = %d, expected %d" % (s[:20], got, want))
                 return
 
-    def _hash_owner(self, h):
-        owner = None
+    def _uniq_want(self, h, nm):
+        """Reference model of the unique-name lookup: the wrapper of the first registered module that goes by
+        hash name h and lists nm ("looking an entity up by each of its names returns an entity bearing that name")."""
         for li in self.reg_order:
             d = self.defs.get(li)
-            if d is not None and d.num_unique_names > 0 and d.library_name is not None and d.library_hash_name == h:
-                owner = li
-        return owner
+            if d is not None and self.reg_hash.get(li) is not None and self.reg_hash[li] == h:
+                for i in range(d.num_unique_names):
+                    if d.unique_names[i].name == nm:
+                        return d.first_index + d.unique_names[i].index_offset
+        return 0
 
     # ------------------------------------------------------------ driver
     def run(self, progress):
